@@ -70,6 +70,11 @@ fn classify(front: &str, base: &str, zone: &Zone, text: &[char], taints: &[Strin
     {
         return "c04-jsdoc-code-fence".into();
     }
+    // Go: `//go:x` followed by an empty comment line: `actual.start += terminator` moves the start
+    // past the end and `Span::len` underflows in `try_get_content` (panic with overflow checks on)
+    if front == "go" && base == "panic" && has("go-directive-empty-tail") {
+        return "c04-go-directive-empty-tail-panic".into();
+    }
     // Ruby: the words `begin` / `end` of the block comment delimiters are offered as words
     if front == "ruby" && base == "word-in-delimiter" && (zone.what == "block-opener" || zone.what == "block-closer") {
         return "c04-ruby-begin-end-delimiter".into();
@@ -179,7 +184,9 @@ pub fn eval_file(id: &str, ilt: bool, text: &str, zones: &[Zone], taints: &[Stri
         }
         Err(e) => {
             out.panicked = true;
-            out.fails.push(("panic".into(), format!("Document::new panicked: {}", trunc(&e, 200))));
+            let dummy = Zone { s: 0, e: 0, kind: ZK::Ignored, what: String::new() };
+            let cs: Vec<char> = text.chars().collect();
+            out.fails.push((classify(id, "panic", &dummy, &cs, taints), format!("Document::new panicked: {}", trunc(&e, 200))));
         }
     }
     out
